@@ -100,6 +100,54 @@ func TestGEPTypes(t *testing.T) {
 	})
 }
 
+func TestNamedScalarAndVectorTypes(t *testing.T) {
+	const test = "NamedScalarAndVectorTypes"
+	hx.Rule(test, "generated modules whose text spells scalar types through alias chains (`%$al1.i32 = type i32`) and vector types through named aliases (`%$v0 = type <4 x i32>`), the legacy non-struct named types LLVM reads as the type itself. Gate: llvm-as accepts the text, the parser accepts it, llvm-as accepts the printed output (which validates every type the parser attached). Oracle: parser type = IR recomputation = constructor type for every instruction / gep / constant expression, compared by Equal and by spelling; non-trivial = module with at least one recomputed type")
+	hx.Check(t, test, hx.N(120, 4000), func(rt *rapid.T) {
+		cfg := gen.DefaultCfg()
+		cfg.GEPBias = true
+		cfg.MaxInsts = 10
+		cfg.Off = map[string]bool{"retattr-align": true, "freeze-metadata": true}
+		m, _ := gen.Module(rt, cfg)
+		noise := gen.DrawNoiseWithAliases(rt)
+		noise.VecAlias = true
+		x := m.TextNoisy(noise)
+		hx.Eval(1)
+		hx.Trace(test, "ll", x)
+		pm, err, p := lx.Parse(x)
+		if err != nil || p != nil {
+			msg := fmt.Sprint(err, " ", p)
+			if strings.Contains(strings.ToLower(msg), "type") && llvmx.Accept(x).OK {
+				hx.Fail(rt, test, "ll", x, "the parser rejects a valid module over a type it computed itself: %.600s", msg)
+			}
+			hx.Discard("parser_does_not_accept(judged_by_C01)")
+			return
+		}
+		fs, st := typing.SelfConsistent(pm, true)
+		hx.HistN("named/types_recomputed_by_ir", st.Recomputed)
+		out, pp := lx.Print(pm)
+		if len(fs) > 0 {
+			if pp != nil || !llvmx.Accept(x).OK {
+				hx.Discard("violation_outside_domain(llvm_rejects_input)")
+				return
+			}
+			var sb strings.Builder
+			for _, f := range fs {
+				fmt.Fprintf(&sb, "%s: %s\n", f.Where, f.Msg)
+			}
+			hx.Fail(rt, test, "ll", x, "%s", sb.String())
+		}
+		if pp == nil && st.Recomputed > 0 && rapid.IntRange(0, 3).Draw(rt, "validate") == 0 {
+			if r := llvmx.Accept(out); !r.OK && !r.Crashed && llvmx.Accept(x).OK {
+				hx.Fail(rt, test, "ll", x, "LLVM accepts the input but rejects the printed module (a type the parser attached is wrong): %.400s", r.Err)
+			}
+		}
+		if st.Recomputed+st.Exprs > 0 {
+			hx.NonTrivial(x)
+		}
+	})
+}
+
 func TestExternalCorpus(t *testing.T) {
 	const test = "ExternalCorpus"
 	hx.Rule(test, "real compiler output (clang-14 over corpus/src x flag sets: address spaces from OpenCL, vector and aggregate code, atomics, C++ and Objective-C object models) and rapid-mutated corpus texts, gated by 'LLVM accepts the input, the parser accepts it, LLVM accepts the printed output' (which validates every type the parser attached at every use): for every getelementptr instruction and constant expression the type the parser attached must equal the type the IR library recomputes from the same operands after its cache is cleared, and geps must get the same type from the constructors; non-trivial = module with at least one recomputed type")
